@@ -46,6 +46,10 @@ pub enum LinkFault {
     /// the (validly signed) link is filed under a name whose eight-character id field consists of dots followed
     /// by only the first 0-7 characters of the signer's key id: `<step>.....abcd.link`
     FiledUnderShortenedPrefix(u8),
+    /// the link is removed; instead the key table and the step's pubkeys list the same key material declared with a
+    /// signature scheme the library does not implement, and a link file named after *that* key's id carries a signature
+    /// entry labelled with it (even n: the genuine signature bytes of the real key; odd n: junk)
+    UnknownSchemeFunctionary(u8),
 }
 
 #[derive(Clone, Debug, Serialize, Deserialize)]
@@ -178,6 +182,20 @@ pub fn apply_faults(spec: &Spec) -> (World, Option<serde_json::Value>) {
                     w.layout.steps[sidx].threshold = 1;
                 }
             }
+            LinkFault::UnknownSchemeFunctionary(n) => {
+                // handled at the wire level (key table, pubkeys) and by an extra file; the model just loses the link
+                let u = unknown_scheme_key(&this_key);
+                let uid = serde_json::to_value(u.key_id()).unwrap().as_str().unwrap().to_string();
+                let (text, _) = signed_text(&in_toto::models::MetadataWrapper::Link(base_link.to_lib()), &[SigEntry::good(&this_key)], &None);
+                let mut doc: serde_json::Value = serde_json::from_str(&text).unwrap();
+                doc["signatures"][0]["keyid"] = serde_json::json!(uid);
+                if n % 2 == 1 {
+                    doc["signatures"][0]["sig"] = serde_json::json!("00ff00ff");
+                }
+                alias = Some(serde_json::json!({"under": uid, "key": serde_json::to_value(&u).unwrap(), "lie": false,
+                    "pubkeys_of_step": *si as usize % nsteps, "file": format!("{}.{}.link", step.name, &uid[..8]), "text": doc.to_string()}));
+                w.links.remove(i);
+            }
             LinkFault::AliasedTableEntry(n) => {
                 // handled at the wire level: the returned alias instruction rewrites the key table
                 // B must be a different key than the one whose id it is filed under (else the entry is honest)
@@ -209,6 +227,17 @@ fn write_with_alias(base: &World, owners: &[KeySpec], w: &World, alias: &Option<
             doc["keyid"] = a["under"].clone();
         }
         tree["keys"][a["under"].as_str().unwrap()] = doc;
+        if let Some(si) = a["pubkeys_of_step"].as_u64() {
+            if let Some(list) = tree["steps"][si as usize]["pubkeys"].as_array_mut() {
+                list.push(a["under"].clone());
+            }
+        }
+        if let (Some(name), Some(text)) = (a["file"].as_str(), a["text"].as_str()) {
+            if !name.contains('/') && !name.contains('\0') {
+                let _ = std::fs::write(dir.join(name), text);
+                pin_mtimes(dir);
+            }
+        }
         // what is enforced is whatever this document parses to; sign exactly that
         let text0 = serde_json::to_string(&serde_json::json!({"signatures": [], "signed": tree})).unwrap();
         if let Ok(b) = serde_json::from_str::<in_toto::models::Metablock>(&text0) {
@@ -242,6 +271,7 @@ fn fault_strategy() -> BoxedStrategy<LinkFault> {
         1 => any::<u8>().prop_map(LinkFault::SubLayoutByKeyMissingFromTable),
         2 => any::<u8>().prop_map(LinkFault::DuplicateStepOtherFunctionary),
         2 => any::<u8>().prop_map(LinkFault::FiledUnderShortenedPrefix),
+        2 => any::<u8>().prop_map(LinkFault::UnknownSchemeFunctionary),
     ]
     .boxed()
 }
@@ -255,7 +285,7 @@ impl Property for C02 {
         "Generated: valid worlds with 1-4 steps, thresholds 0-3, functionary pool of 2-5 keys, every assignment of keys to step.pubkeys, then \
          1-3 faults on chosen (step, link) files: removed; signed by another functionary but filed under this key's prefix; tampered after \
          signing; replaced by a valid link of a functionary authorised only for other steps; of a key authorised in the step but absent \
-         from the key table; of a stranger; filed under a name whose id field is dots plus only the first 0-7 characters of the signer's id; multiply signed; signature by another key labelled with this key's id; corrupted signature; \
+         from the key table; of a stranger; filed under a name whose id field is dots plus only the first 0-7 characters of the signer's id; replaced by a link attributed to the same key material declared (in key table and pubkeys) with an unimplemented signature scheme; multiply signed; signature by another key labelled with this key's id; corrupted signature; \
          garbage; aliased key-table entry (table files key B under id(A), B signs labelled id(A)); evidence replaced by a valid \
          sub-layout of a functionary who is not authorised for the step / missing from the key table. Enumerated: 2 steps x 2 keys, every \
          (step,key) file in {absent, valid by that key, signed by the other key under this name, tampered, garbage}: 625 populations. \
